@@ -97,6 +97,11 @@ def scenario(ctx, rng, j):
                       t - 61, t - 60, t - 59))
     in_time = t >= deadline and t - now < sl
     tweak = functions.clamp_scalar(rbytes(rng, 32), rng.random() < 0.5)
+    if j % 10 == 7:
+        # the tweak scalar is the receiver's OWN key scalar: the tweak point
+        # repeats the receiver key (the point lock is then 2 * the key)
+        tweak = functions.derive_key_from_seed(R)
+        ctx.count('tweak_point_repeats_receiver_key')
     T = functions.derive_point_from_scalar(tweak)
     wrong_tweak = functions.clamp_scalar(rbytes(rng, 32))
 
